@@ -66,7 +66,7 @@ prop('C02',
      'DESIGN.md 3.1, 4 C02')
 
 prop('C03',
-     [MI.dt1, MI.ex2, MI.df1, PD.pd5, ST.ls2p, ST.at1, ST.ex1, RG.rg1, RG.rg2, R2.at2, SC.sc5, R3.rs1, R4.exw, R4.um1, R4.nm1],
+     [MI.dt1, MI.ex2, MI.df1, PD.pd5, ST.ls2p, ST.at1, ST.ex1, RG.rg1, RG.rg2, R2.at2, SC.sc5, R3.rs1, R4.exw, R4.um1, R4.nm1, R4.st1, R4.sig1, R4.df2, R4.sbl1],
      'no markup class reaches the default emit and comments are dropped (DT1); an argument '
      'handed back for expansion is not expanded a second time by its handler (EX2: no '
      'duplicated footnotes); text of definition files never reaches the output, including '
@@ -144,7 +144,7 @@ prop('C08',
      'DESIGN.md 3.7, 4 C08')
 
 prop('C09',
-     [C9.sb1, C9.sb2, C9.sb3, C9.sb4, C9.sb5, ST.pd7, PD.pd5, MI.df1, MO.ix6, R3.ix12, MI.uk, R3.rs1, R4.sc8, R4.sb2b, ST.at1, R2.at2, R4.um1, R4.en1, R4.exw],
+     [C9.sb1, C9.sb2, C9.sb3, C9.sb4, C9.sb5, ST.pd7, PD.pd5, MI.df1, MO.ix6, R3.ix12, MI.uk, R3.rs1, R4.sc8, R4.sb2b, ST.at1, R2.at2, R4.um1, R4.en1, R4.exw, R4.st1, R4.sbl1],
      'structural clauses only: the substitution loop replaces #k by the complete k-th argument and '
      'copies every other body token once, in order (SB1); one argument per code, defaults at the '
      'index of the code (SB2); \\newcommand / \\def register unconditionally under the literal name '
@@ -264,7 +264,7 @@ prop('C16',
      'DESIGN.md 3.4 (TH1, TH2), 3.2 (LS2), 4 C16')
 
 prop('C18',
-     [ST.ex1, ST.wl1, ST.ls2p, MI.dt1, MI.df1, R2.cm2, SC.sc5, R3.rs1, R4.exw],
+     [ST.ex1, ST.wl1, ST.ls2p, MI.dt1, MI.df1, R2.cm2, SC.sc5, R3.rs1, R4.exw, R4.df2],
      'init_extractions rewrites every macro and extracts the first mandatory argument, the main '
      'text is dropped, flows are appended once in order (EX1); the work list takes one name per '
      'iteration, records it exactly as tested after the done / skip test, and adds only names '
@@ -279,7 +279,7 @@ prop('C18',
      'DESIGN.md 3.8 (EX1, WL1), 4 C18')
 
 prop('C19',
-     [MI.uk, R2.uk5, SC.sc5, PS.ps1, R3.sp5, R3.mc1, R3.rs1, R4.um1, R4.sh1, R4.exw, R4.acc1],
+     [MI.uk, R2.uk5, SC.sc5, PS.ps1, R3.sp5, R3.mc1, R3.rs1, R4.um1, R4.sh1, R4.exw, R4.acc1, R4.st1],
      'recorded only when undeclared at the time of use, only in text mode, once, reset per '
      'document, printed one per line (UK); what is declared does not depend on earlier calls '
      '(PS1)',
